@@ -283,6 +283,15 @@ def conjugate_models(rnd):
         D("lik", "Poisson", P("data", ys), {"rate": "z"}), J("p", ["prior", "lik"]),
         D("q0", "Gamma", "z", {"concentration": P("qa", [a + sy]), "rate": P("qb", [b + n])}), J("q", ["q0"])],
         a * math.log(b) - math.lgamma(a) + math.lgamma(a + sy) - (a + sy) * math.log(b + n) - sum(math.lgamma(y + 1) for y in ys)))
+    # gamma - Poisson with many observations: |log Z| of the order of a thousand (exp(n log w) must be stabilised)
+    a, b = rnd.uniform(0.5, 4), rnd.uniform(0.5, 3)
+    ys = [float(rnd.randint(0, 9)) for _ in range(400)]
+    n, sy = len(ys), sum(ys)
+    out.append(("gamma-poisson-400", [
+        D("prior", "Gamma", P("z", [1.0]), {"concentration": P("a", [a]), "rate": P("b", [b])}),
+        D("lik", "Poisson", P("data", ys), {"rate": "z"}), J("p", ["prior", "lik"]),
+        D("q0", "Gamma", "z", {"concentration": P("qa", [a + sy]), "rate": P("qb", [b + n])}), J("q", ["q0"])],
+        a * math.log(b) - math.lgamma(a) + math.lgamma(a + sy) - (a + sy) * math.log(b + n) - sum(math.lgamma(y + 1) for y in ys)))
     # normal - normal, d independent means with one observation each
     d = rnd.randint(1, 4)
     m0 = [rnd.uniform(-2, 2) for _ in range(d)]
